@@ -1,4 +1,6 @@
 SPECIFICATION Spec
-CONSTANT Repush = FALSE
+CONSTANTS
+  Repush = FALSE
+  HostCycles = "standin"
 INVARIANT Done
 CHECK_DEADLOCK FALSE
